@@ -7,11 +7,13 @@ package main
 import (
 	"fmt"
 	"io"
+	"net/http"
 	"os"
 	"path/filepath"
 	"regexp"
 	"strings"
 	"sync"
+	"time"
 
 	"github.com/gr33nbl00d/caddy-revocation-validator/core/verifhook"
 	"github.com/gr33nbl00d/caddy-revocation-validator/crl/crlreader"
@@ -151,12 +153,39 @@ func runC12(c *Ctx) {
 			}
 		})
 		w.Do(sv("/a", sc.new))
+		// a crash in the middle of the download: the origin sends half of the body, the work directory is copied, then
+		// the rest follows (only the first download of the instrumented intake)
+		midDone := false
+		w.Org.Route("/a", func(_ int, rw http.ResponseWriter, _ *http.Request) {
+			w.Org.mu.Lock()
+			what := w.serve["/a"]
+			w.Org.mu.Unlock()
+			body, ok := w.Lists[what]
+			if !ok {
+				http.Error(rw, "unavailable", http.StatusServiceUnavailable)
+				return
+			}
+			if midDone || len(body) < 8 {
+				rw.Write(body)
+				return
+			}
+			midDone = true
+			rw.Header().Set("Content-Length", fmt.Sprint(len(body)))
+			rw.Write(body[:len(body)/2])
+			if f, ok := rw.(http.Flusher); ok {
+				f.Flush()
+			}
+			time.Sleep(60 * time.Millisecond) // the client has written what it received
+			snap("PFetched")
+			rw.Write(body[len(body)/2:])
+		})
 		if sc.old == "" {
 			w.Do(hs("c104")) // first load
 		} else {
 			w.Do(refreshStep)
 		}
 		verifhook.SetHandler(nil)
+		w.route("/a")
 		w.Do(sv("/a", "down"))
 		// restart on every image, origins down
 		for _, img := range local {
@@ -275,6 +304,6 @@ func runC12(c *Ctx) {
 	}
 	c.WriteCoqSharded("cases_C12", "From Verif Require Import Base Repo RepoProps RunRepo.\nOpen Scope N_scope.\n", "ccase", items, "crash_mismatches", 100)
 	c.Rep.Cases = len(images)
-	c.Rep.Rule = "copies of the work directory taken after the download, after every store write into the staging store, after acceptance and after each of the five steps of LevelDbStore.Update (hook sites), for first load and refresh, accepted and rejected lists; a fresh validator is provisioned on each copy with all origins down and crl_cdp_strict on, probes old-only/new-only/common/unlisted; then the work_dir must hold store directories only, and with the origin back a refresh must bring the new list into force; distinct by (scenario, phase)"
+	c.Rep.Rule = "copies of the work directory taken in the middle of the download, after the download, after every store write into the staging store, after acceptance and after each of the five steps of LevelDbStore.Update (hook sites), for first load and refresh, accepted and rejected lists; a fresh validator is provisioned on each copy with all origins down and crl_cdp_strict on, probes old-only/new-only/common/unlisted; then the work_dir must hold store directories only, and with the origin back a refresh must bring the new list into force; distinct by (scenario, phase)"
 	c.Rep.Extra["exhaustive"] = true
 }
